@@ -277,6 +277,8 @@ where
 {
     //dbg!("handle_http_conn_once");
     let mut req = http_conn.read_request().await?;
+    #[cfg(feature = "verif_hooks")]
+    crate::verif::emit("ReqRead", u64::from(http_conn.remote_addr.port()), 0);
     //dbg!(&req);
     match &req.body {
         RequestBody::PendingKnown(len) if *len <= (small_body_len as u64) => {
@@ -327,6 +329,11 @@ pub async fn handle_http_conn<F, Fut>(
     F: FnOnce(Request) -> Fut + 'static + Send + Clone,
 {
     //dbg!("handle_http_conn");
+    #[cfg(feature = "verif_hooks")]
+    let _verif_conn_end =
+        crate::verif::EmitOnDrop("ConnEnd", u64::from(http_conn.remote_addr.port()));
+    #[cfg(feature = "verif_hooks")]
+    crate::verif::emit("ConnBegin", u64::from(http_conn.remote_addr.port()), 0);
     while !permit.is_revoked() {
         if !http_conn.is_ready() {
             // Previous request did not download body.
